@@ -93,6 +93,15 @@ def epochOfAbs (t : Int) : Nat × Nat :=
 def absOfYear (year : Nat) (us : Int) : Int :=
   (((year - 1) * 365 + (year - 1) / 4 - (year - 1) / 100 + (year - 1) / 400 : Nat) : Int) * 86400000000 + us
 
+/-- Python's `x % 360` on the exact value — floor modulo, the result has the sign of the DIVISOR: `x − 360·⌊x/360⌋`.
+`np.degrees(a) % 360` is this value for `x ≥ 0` (`fmod` is exact) and within one binary64 rounding of it for `x < 0`
+(`fmod(x, 360) + 360`); whatever representative of an angle the orbit holds — (−π, π] out of an `arctan2`, several
+turns — the number formatted lies in one turn -/
+def wrapDeg (x : Q) : Q := ⟨x.num % (360 * (x.den : Int)), x.den⟩
+
+/-- C's `fmod(x, 360)` / `np.fmod` — truncated modulo, the result has the sign of the DIVIDEND: what the writer does not use -/
+def fmodDeg (x : Q) : Q := ⟨Int.tmod x.num (360 * (x.den : Int)), x.den⟩
+
 /-- what `Tle.from_orbit` hands to `str.format`, each number with its exact value -/
 structure QOrb where
   name : Str
